@@ -4,11 +4,11 @@ package main
 // compressor and the decompressor, provenance of decode-time choices, page extents.
 
 import (
-	"reflect"
 	"fmt"
 	"go/constant"
 	"go/token"
 	"go/types"
+	"reflect"
 	"sort"
 	"strings"
 
@@ -468,7 +468,7 @@ func sliceLenExpr(v ssa.Value) string {
 
 func checkC04(c *Ctx) {
 	r := c.R
-	r.Explanation = "Necessary structural preconditions of C04 only (thin claim): decode-time choices come from the file, never from writer configuration (LA-codec provenance of the codec switch; LA-cfg: no reader-reachable function loads a writer-configuration field); writer and reader pair inverse codec operations; both run kinds and multi-byte run headers are handled by the level decoder (LA-runkind, LA-leb128); a page body's extent is the header's compressed size (LA-extent); level streams are read in the order and with the widths they are written (LA-order); reading is independent of read fragmentation (SR, as C08); the decode path uses no thrift field a conformant writer may omit — statistics, crc, optional offsets — other than the v1 data-page discriminator (LA-optmeta); decoded levels are cut to the page's num_values, non-null and per-page counts are each page's own, chunk descriptors come from the file's column metadata (data_page_offset when the reader positions by it) (LA-trim, LA-nonnull, LA-sizes, LA-pages, SR-count); the generated reader's drivers (TD: Next, constructor, readRowGroup); valid footers are not refused (FOOTER-REJECT) and are located at tail position − length (LA-footer). NOT decided: correctness of level/run/PLAIN decoding, page concatenation and trimming for all legal encodings — that needs an independent writer."
+	r.Explanation = "Necessary structural preconditions of C04 only (thin claim): decode-time choices come from the file, never from writer configuration (LA-codec provenance of the codec switch; LA-cfg: no reader-reachable function loads a writer-configuration field); writer and reader pair inverse codec operations; both run kinds and multi-byte run headers are handled by the level decoder (LA-runkind, LA-leb128); a page body's extent is the header's compressed size (LA-extent); level streams are read in the order and with the widths they are written (LA-order); reading is independent of read fragmentation (SR, as C08); the decode path uses no thrift field a conformant writer may omit — statistics, crc, optional offsets — other than the v1 data-page discriminator (LA-optmeta); decoded levels are cut to the page's num_values, non-null and per-page counts are each page's own, chunk descriptors come from the file's column metadata (data_page_offset when the reader positions by it) (LA-trim, LA-nonnull, LA-sizes, LA-pages, SR-count); the generated reader's drivers (TD: Next, constructor, readRowGroup); a page is refused for its level encoding only where the column decodes such levels (FG-over); valid footers are not refused (FOOTER-REJECT) and are located at tail position − length (LA-footer). NOT decided: correctness of level/run/PLAIN decoding, page concatenation and trimming for all legal encodings — that needs an independent writer."
 	laCodec(c, "LA-codec")
 	laCfg(c, "LA-cfg")
 	laExtent(c, "LA-extent")
@@ -486,6 +486,8 @@ func checkC04(c *Ctx) {
 	runFT(c, "FT", map[string]bool{"read": true})
 	runTVDriver(c, "TV-driver")
 	footerRejects(c, footerPathFns(c))
+	runFG(c, true)
+	r.floor("FG-over/header-consumers", 1, "RequiredField.DoRead, OptionalField.DoRead")
 	laFooterMeta(c, "LA-footer", map[string]bool{"rows": true, "seek": true})
 	_, t, _ := srcAnalysis(c)
 	runSR(c.U, r, t, func(f *ssa.Function) bool { return !c.U.isCtl(f) })
@@ -649,6 +651,7 @@ func laWalk(c *Ctx, rule string) {
 	} else {
 		r.bad(rule, key+" progress", pos, "the count of covered values is not advanced by the header's num_values")
 	}
+	laWalkStop(c, rule, at, hc)
 	// PageHeaders: one call per column chunk, with that chunk's own offset and count, results appended in order
 	key = u.FnName(all)
 	pos = u.Pos(all.Pos())
